@@ -31,7 +31,7 @@ add("C05", "exhaustive enumeration of import / declaration / project configurati
     "All subsets of <= 3 of 8 imports x all sets of 3 forward declarations x 8 (thorough 16) project contexts (5 952 / 11 904 configurations, 375 type references each); the observed file holds 15 adversarially similar names x 5 nesting depths x 5 positions (return, argument, field, interface constant, parcelable constant); supporting files include one with a recovered syntax error and a project item named like a built-in; every third configuration also in a layout with a comment and line break in every gap. Every type node's kind after validate() and every diagnostic on a type-name span is compared with the statement's rule; the same final projects are also reached through replace (with transient decoy contents), add-then-remove, reversed and replaced-by-a-file-without-a-tree histories (quick: every 5th configuration, thorough: all). Exhaustive over that product.",
     SEMA_NOTE, "DESIGN.md section 4, C05")
 add("C06", "exhaustive enumeration of import lists x forward-declaration lists x bodies x project contexts against the statement's exactly-one-of table",
-    "Every import list (with repetition) of length <= 2 (thorough <= 3) over 10 imports x every declaration list of length <= 2 (thorough <= 3) over 5 names x 2 bodies (every fifth case with a large header of 24 more imports and a type 20 levels deep) x 2 contexts (quick adds all import lists of length 3 with declaration lists <= 1); the multiset of validation diagnostics located in the header must equal the reference multiset (severity, statement, related statement).",
+    "Every import list (with repetition) of length <= 2 (thorough <= 3) over 11 imports x every declaration list of length <= 2 (thorough <= 3) over 5 names x 2 bodies (every fifth case with a large header of 24 more imports and a type 20 levels deep) x 2 contexts (quick adds all import lists of length 3 with declaration lists <= 1); the multiset of validation diagnostics located in the header must equal the reference multiset (severity, statement, related statement).",
     SEMA_NOTE, "DESIGN.md section 4, C06")
 add("C07", "exhaustive enumeration of ordered argument pairs over (category x direction) cells x oneway combinations against the statement's table",
     "All ordered pairs of 84 (category, direction) cells (21 category representatives reached through real multi-file resolution, beside mirror files that give every name the other kinds; every third argument annotated) x interface oneway x 4 method-oneway patterns x with/without a constant before a member (then all methods share one name), every cell alone, thorough: all 512 000 ordered triples; Errors on direction keywords / at argument type starts and the propagated oneway flags are compared with the reference.",
